@@ -66,6 +66,8 @@ def raised_finding(run, prop, rule, repo, entry_qual, scen, r, instance=None):
     where = repo.fn(entry_qual).where
     path = ' -> '.join(f'{q} [{loc}]' for q, loc, _ in (r.path or [])[-4:])
     cons = norm_text(r.node, 150) if r.node is not None else '?'
+    if getattr(r, 'none_arg', None):
+        cons = f'the operand {r.none_arg} is None (never assigned)'
     run.add(Finding(prop, rule, where, f'{r.exc_type} at {fn.where if fn else "?"}: {cons}',
                     f'{entry_qual} raises {r.exc_type}: {r.message} ({scen}); path: {path}', fn.file if fn else None, getattr(r.node, 'lineno', None),
                     {'scenario': scen, 'path': r.path, **({'instances': [instance]} if instance else {})}))
